@@ -118,6 +118,36 @@ theorem key_column_code_matches_source :
       "if redraw { for idx, row := range s.rows { s.writeBar(idx, row.name, row.vals...) } } else { s.writeBar(idx, key, vals...) }"] := by
   refine ⟨by decide +kernel, by decide +kernel, by decide +kernel, by decide +kernel⟩
 
+/-- the code behind the `--scale` names and the legend line is the modelled one (printed statements, regenerated on every run):
+`ScalerByName` switches on `strings.ToLower(name)` over exactly these names (`scalerByName`); `ScaleKeys` maps six equidistant
+points of the remapped range back with `unmapVal` (identity / `math.Pow(2|10, f)`), truncates to int64 and drops consecutive
+duplicates (`scaleKeys`, `rawKeys`, `dedupFrom`); `Heatmap.UpdateMinMax` writes the indentation, then per key a heat cell of
+`Scale(key, min, max)`, a blank and `Formatter(key, min, max)` (`Heatmap.updateMinMax`, `heat_legend_line`).  (The printer
+collapses runs of blanks inside string literals: the four blanks between legend entries print as one.) -/
+theorem legend_code_matches_source :
+    Gen.C14.scalerByNameBody = ["switch strings.ToLower(name) { case \"linear\", \"lin\", \"\": return ScalerLinear, true case \"log10\", \"log\": return ScalerLog10, true case \"log2\": return ScalerLog2, true }",
+      "return ScalerNull, false"] ∧
+    Gen.C14.scaleKeysBody = ["minf10, maxf10 := s.remapMinMax(min, max)", "ret := make([]int64, 0, buckets)",
+      "for i := int64(0); i < buckets; i++ { val := int64(s.unmapVal((maxf10-minf10)*float64(i)/float64(buckets-1) + minf10)) if i == 0 || ret[len(ret)-1] != val { ret = append(ret, val) } }",
+      "return ret"] ∧
+    Gen.C14.unmapLinearBody = ["return f"] ∧ Gen.C14.unmapLog2Body = ["return math.Pow(2.0, f)"] ∧ Gen.C14.unmapLog10Body = ["return math.Pow(10.0, f)"] ∧
+    Gen.C14.heatUpdateMinMaxBody = ["s.minVal = min", "s.maxVal = max", "var sb strings.Builder", "for i := 0; i < s.maxRowKeyWidth+1; i++ { sb.WriteRune(' ') }",
+      "for idx, item := range s.Scaler.ScaleKeys(6, s.minVal, s.maxVal) { if idx > 0 { sb.WriteString(\" \") } termunicode.HeatWrite(&sb, s.Scaler.Scale(item, s.minVal, s.maxVal)) sb.WriteString(\" \") sb.WriteString(s.Formatter(item, min, max)) }",
+      "s.term.WriteForLine(0, sb.String())"] := by
+  refine ⟨by decide +kernel, by decide +kernel, by decide +kernel, by decide +kernel, by decide +kernel, by decide +kernel⟩
+
+/-- the `--scale` names (`termscaler.ScalerByName`, compared with the real function on generated names by op `scname`): the six
+accepted spellings in any case – also `LİN` (Go lower-cases U+0130 to `i`) –, and nothing else: not a prefix, not a name
+with blanks, not invalid UTF-8 -/
+theorem scaler_names_table :
+    (["linear", "lin", "", "LINEAR", "Lin", "lInEaR"].map fun n => scalerByName n.toUTF8.toList) = List.replicate 6 (some .linear) ∧
+    (["log10", "log", "LOG", "Log10"].map fun n => scalerByName n.toUTF8.toList) = List.replicate 4 (some .log10) ∧
+    (["log2", "LOG2", "lOg2"].map fun n => scalerByName n.toUTF8.toList) = List.replicate 3 (some .log2) ∧
+    scalerByName "LİN".toUTF8.toList = some .linear ∧
+    (["ln", "log1", "log 2", " log2", "linea", "linearr", "none", "loK", "l\u0131n"].map fun n => scalerByName n.toUTF8.toList) = List.replicate 9 none ∧
+    scalerByName (ascii "log" ++ [0xff]) = none := by
+  decide +kernel
+
 /-! ## scaler laws (∀ val, min, max) -/
 
 /-- `Scale` lies in `[0,1]` for all integers (in particular all of int64), every scaler -/
